@@ -23,7 +23,7 @@ CHECKS = {
          "DESIGN.md section 5, C03"),
  "C04": ("proptest programs with injected violations + bounded-exhaustive small-scope families, judged by an independent table-driven rule checker (both directions)",
          "exploration",
-         "A reference checker implementing the whole rule catalogue recomputes the violated rules of every generated program (0..3 injections out of a 49-entry catalogue at boundary values, and five exhaustive small-scope families: tags/optional/compact over <= 3 members, stream placements, enum shapes, key types to depth 2, attribute x target). Well-formed <=> accepted, and every reported error code must belong to a rule the program violates. Complete within the small-scope families, sampled beyond.",
+         "A reference checker implementing the whole rule catalogue recomputes the violated rules of every generated program (0..3 injections out of a 49-entry catalogue at boundary values, and five exhaustive small-scope families: tags/optional/compact over <= 3 members, stream placements, enum shapes, key types to depth 2, attribute x target). Well-formed <=> accepted, and every reported error code must belong to a rule the program violates. Complete within the small-scope families, sampled beyond. One open finding (F-04b, attributes on underlying types and bases are not validated) is reported as KNOWN-FINDING.",
          "trusts the reference rule checker (written from the statement and the language reference; validated by 0 disagreements on the pinned tree apart from the listed findings); which of several simultaneous violations is reported is not asserted",
          "DESIGN.md section 5, C04"),
  "C05": ("bounded-exhaustive graph enumeration (containment, alias, inheritance) with an SCC reference; chains validated through note spans",
@@ -78,12 +78,12 @@ CHECKS = {
          "DESIGN.md section 5, C17"),
  "C01": ("bounded-exhaustive token soups and type-form x position programs, proptest mutations / arbitrary Unicode / injected programs, enumerated cycle graphs, growth probe; isolated workers with crash journal and 20 s watchdog; binary runs with option vectors",
          "exploration",
-         "Every sequence of <= 2 (quick) / <= 3 (thorough) tokens over a 78-token alphabet in 8 contexts, 22 type forms in 14 positions, enumerated alias / inheritance / containment graphs, thousands of mutated generated programs and shipped .slice files, arbitrary Unicode and programs with injected violations are run through compile + diagnostic patching + both emitters in isolated worker processes (a death or a case over 20 s is seen by the supervisor, confirmed solo with a tripled bound, shrunk and reported), and a fraction through the real binary with 22 option vectors (exit status in {0,1,2}, no signal, no panic). A probe over six dense shapes (acyclic containment and inheritance graphs, a cycle next to / behind a dense graph, an alias DAG), measured in CPU time, guards the time bound; definitions and modules named like primitives and raw source text (seeded, with a token dictionary, mostly for the coverage-guided stage) complete the families. One open finding (F-01h, exponential time on a DAG of aliases of anonymous types) is reported as KNOWN-FINDING.",
+         "Every sequence of <= 2 (quick) / <= 3 (thorough) tokens over an 82-token alphabet in 8 contexts, 22 type forms in 14 positions, enumerated alias / inheritance / containment graphs, thousands of mutated generated programs and shipped .slice files, arbitrary Unicode and programs with injected violations are run through compile + diagnostic patching + both emitters in isolated worker processes (a death or a case over 20 s is seen by the supervisor, confirmed solo with a tripled bound, shrunk and reported), and a fraction through the real binary with 22 option vectors (exit status in {0,1,2}, no signal, no panic). A probe over eight dense shapes (acyclic containment and inheritance graphs, a cycle next to / behind a dense graph, an alias DAG, dictionary keys over a DAG of compact structs), measured in CPU time, guards the time bound; definitions and modules named like primitives and raw source text (seeded, with a token dictionary, mostly for the coverage-guided stage) complete the families. One open finding (F-01h, exponential time on a DAG of aliases of anonymous types) is reported as KNOWN-FINDING.",
          "absence of crashes only for the explored inputs; 'grows gently' is asserted as the stated bound plus the doubling probe; undefined behaviour that happens not to crash is only seen by the thorough tier's ASan stage",
          "DESIGN.md section 5, C01"),
  "C07": ("proptest run configurations through the real binary with instrumented fake generators (invocation log, output files)",
          "exploration",
-         "16 program states (clean, warnings only by three lints, one error of each phase incl. three I/O errors, a cross-file redefinition and an illegal file attribute alone in a module-less file, in any of 1..4 source / reference files; DuplicateFile warning and module-less extra files next to any state) x 0..3 generators (one optionally failing by exit status, stderr or a signal after a complete reply) x --dry-run x format x -A lists x -O (also with identical files already in the working directory) x option order: generators run and files appear iff no error and no --dry-run; warnings never prevent generation; exit status != 0 iff an error diagnostic was emitted.",
+         "19 program states (clean, warnings only by three lints, one error of each phase incl. three I/O errors, a cycle through any anonymous type, a cross-file redefinition, an illegal file attribute alone in a module-less file, an error in a conditional branch that only another file's #define would change, in any of 1..4 source / reference files; DuplicateFile warning and module-less extra files next to any state) x 0..3 generators (one optionally failing by exit status, stderr or a signal after a complete reply) x --dry-run x format x -A lists x -O (also with identical files already in the working directory) x option order: generators run and files appear iff no error and no --dry-run; warnings never prevent generation; exit status != 0 iff an error diagnostic was emitted.",
          "trusts the fake generator's invocation log and the parsing of emitted diagnostics (JSON lines / 'error [' headers)",
          "DESIGN.md section 5, C07"),
  "C13": ("bounded-exhaustive template matrix (lint x site x placement x argument x decoy) with a reference predicate; proptest random programs with many lints and random suppressions judged by a location-based reference predicate; metamorphic with/without pairs; binary subset",
